@@ -80,11 +80,15 @@ func (fr *Frame) cutLoop(li *loopInfo, st *State, preds []*ssa.BasicBlock, pstat
 			for _, phi := range phis {
 				fr.vals[phi] = entryVals[phi]
 			}
-			t, err := fr.evalClause(inv, st, fr.entry, nil)
+			t, sks, err := fr.evalGoal(inv, st, fr.entry, nil)
 			if err != nil {
 				return fmt.Errorf("%s:%d: %v", inv.File, inv.Line, err)
 			}
-			vc.oblige(st, "inv_entry", fr.loopName(li)+":"+clauseLabel(inv), t, li.pos, inv.Text)
+			if fr.dry == 0 {
+				vc.obligeHinted(st, "inv_entry", fr.loopName(li)+":"+clauseLabel(inv), t, sks, li.pos, inv.Text)
+			} else {
+				vc.oblige(st, "inv_entry", fr.loopName(li)+":"+clauseLabel(inv), t, li.pos, inv.Text)
+			}
 		}
 	}
 	// 2. dry run to find what the body writes
